@@ -227,6 +227,40 @@ CLAIMED['C16'] = dict(
    note=NOTE + "; parse_content enters as an arbitrary outcome; MacroStandardArgsParser.parse_args' own argument loop is not proved "
         "equal to LatexArgumentsParser on all inputs (two-program equivalence, stated); get_token not covered")
 
+CLAIMED['C09'] = dict(
+   text="Proof of the frame conditions behind purity, recomputed from the real ASTs on every run: for every method of every class whose "
+        "instances outlive a parse (all parser classes incl. the cached standard-argument parsers and the verbatim parsers, the "
+        "arguments parsers, the specification classes, LatexArgumentSpec, ParsingState, the parsing-state deltas, the event handler, "
+        "the legacy args parsers, LatexContextDb) one `frame` obligation: outside the constructor the method stores into no attribute of "
+        "self, mutates no container held there, writes no module-level state and mutates no default-argument object; two declared "
+        "exceptions with their own obligations (the parser cache stores a parser built from exactly its key; the memoised inner parser is "
+        "a function of constructor-only fields); ParsingState's table builders are called only from its constructor; no parser, "
+        "collector, reader or specification calls a mutator of the context database; the database lookups have modifies=[] (C14 units) "
+        "and the cache is a function of its key (C02 lemma). Determinism then follows by the stated lemma.",
+   ref="DESIGN.md section 5, C09",
+   note=NOTE + "; syntactic frame analysis (aliasing of a shared container through a local is not tracked); per-parse objects are "
+        "excluded; the determinism lemma itself is stated, not mechanised",
+   technique="contract-based deductive verification: frame (modifies) obligations generated from the real ASTs per method, exceptions discharged by "
+             "their own obligations; pyvc units for the database lookups and the parser cache")
+
+CLAIMED['C18'] = dict(
+   category='exploration',
+   text="BOUNDED, not a proof for all lists: the real split_at_chars / split_at_node / filter are executed symbolically on node lists with a "
+        "concrete spine of at most 2 (quick) / 3 (thorough) entries -- None, an abstract child node that cannot be inspected, or a chars "
+        "node of 1..2 / 1..3 arbitrary characters -- with symbolic consecutive positions, an arbitrary separator of 1..2 characters and "
+        "every option enumerated; loops unrolled. Within the bound, for all characters / positions / options: created chars nodes are "
+        "slices of input chars nodes with the matching source span; other nodes pass by identity in order (a separator inside a child "
+        "cannot split); with keep_empty and no max_split the parts joined by the separator reproduce the text and tile the list; at most "
+        "max_split splits; the result without keep_empty is the result with it minus the empty parts (the function is run twice); callable "
+        "/ match-object separators split exactly at the reported match; filter returns exactly the accepted nodes in order. Proved "
+        "without bound: get_content_as_chars by cases, the argument views (ParsedArgumentsInfo keeps given arguments; get_content_nodelist "
+        "decision table). parse_keyval_content is run by the verifier on 10 concrete texts x 4 policies and compared with the two splits.",
+   ref="DESIGN.md section 5, C18",
+   note=NOTE + "; bound: entries <= 2/3 (4 for split_at_node), chars per node <= 2/3, separator <= 2 chars, max_split in {None,0,1,2}; an "
+        "inductive invariant for the pending-nodes state machine was not attempted",
+   technique="contract-based verification of the real functions with contracts as above; the whole-function clauses are discharged by bounded "
+             "symbolic execution (pyvc, loops unrolled) -- a bounded stand-in, labelled as such and not counted as proved")
+
 NA = {
 }
 DEFAULT_NA = "check not built yet (work in progress; see DESIGN.md section 5 for the planned contracts)"
@@ -243,7 +277,7 @@ def main():
                 "evidence_file": "evidence/%s.json" % p,
                 "replay_cmd_template": "python3-vt -m pyvc.check %s --replay {path}" % p,
                 "engine": "pyvc",
-                "level_claimed": {"category": "proof", "text": c['text'], "design_ref": c['ref']},
+                "level_claimed": {"category": c.get('category', 'proof'), "text": c['text'], "design_ref": c['ref']},
                 "level_note": c.get('note', NOTE),
                 "technique": c.get('technique', TECH),
             })
